@@ -154,7 +154,9 @@ def _stream_read(text, fmt, kw, via, det):
         else:
             f = io.StringIO(content) if w == 'sio' else io.BytesIO(content.encode('utf-8'))
         try:
-            if pre and via['pre'][0] == 'title':
+            if via.get('at0') and pre and via['pre'][0] == 'table':
+                pass                                     # two tables in one stream, read from the start
+            elif pre and via['pre'][0] == 'title':
                 for _ in range(pre.count('\n')):
                     f.readline()
             elif pre:
@@ -276,7 +278,9 @@ def _cycle(x, via):
 def impl(case):
     k = case['_k']
     if k == 'text':
-        return _cycle(_read(case['t'], case.get('_via', 'str')), case.get('_via', 'str'))
+        via = case.get('_via', 'str')
+        # at0: the stream holding an earlier table and this text is read from its START (the joined list); the cycles go on behind the table
+        return _cycle(_read(case['t'], via), {k: v for k, v in via.items() if k != 'at0'} if isinstance(via, dict) else via)
     if k == 'obj':
         return _cycle(build_fts(case['fts']), case.get('_via', 'str'))
     if k == 'edit':
@@ -751,6 +755,8 @@ def _coq_stream(case, fmt, kw):
     via = case['_via']
     pre = _pre_text(via, fmt, kw)
     pos = '(PLines %s)' % coq_nat(pre.count('\n')) if pre and via['pre'][0] == 'title' else '(PSeek %s)' % coq_nat(len(pre))
+    if via.get('at0') and pre and via['pre'][0] == 'table':
+        pos = '(PSeek %s)' % coq_nat(0)
     return '%s %s' % (pos, coq_bs(pre + case['t']))
 
 
@@ -1077,9 +1083,16 @@ def _spec(case, got, skip_firstloc):
             if ln.startswith('#') or not ln.strip():
                 continue
             c = ln.strip().split('\t')
-            want.append((int(c[3]) - 1, int(c[4]), c[6]))
-        have = [tuple(l[:3]) for f in o0 for l in f[2]]
-        if sorted(want) != sorted(have):
+            try:
+                want.append((int(pct_decode(c[3])) - 1, int(pct_decode(c[4])), c[6]))     # the reader unquotes every column (mutated texts)
+            except (ValueError, IndexError):
+                want = have = None               # a mutated line the reader was lenient about: the property is silent
+                break
+        via = case.get('_via')
+        if want is not None and case['_k'] == 'text' and isinstance(via, dict) and via.get('at0') and via.get('pre') and via['pre'][0] == 'table':
+            want += [(a, b, sd) for f in via['pre'][1] for a, b, sd, _ in f['locs']]      # the earlier table of the stream is read as well
+        have = [tuple(l[:3]) for f in o0 for l in f[2]] if want is not None else None
+        if want is not None and sorted(want) != sorted(have):
             return 'locations read %r, file has %r' % (have, want)
     normalised = all(f[2][0][3] is None for f in o0)
     ids = [gid(f) for f in o0]
@@ -1476,7 +1489,10 @@ def gen_text(rng, in_domain=True):
             lines.append((a, b, sd, attrs, score, phase))
         fts.append({'seqid': rng.choice(['chr1', 'chr1', 'NC 1', 'a;b=c', None]), 'source': rng.choice([None, 'RefSeq', 'my tool']),
                     'type': rng.choice(TYPES + [None]), 'lines': lines})
-    return {'_k': 'text', 't': render_text(rng, fts), '_via': gen_via(rng)}
+    via = gen_via(rng)
+    if isinstance(via, dict) and via['pre'] and via['pre'][0] == 'table' and rng.random() < 0.35:
+        via['at0'] = True                        # the stream with both tables is read from its start
+    return {'_k': 'text', 't': render_text(rng, fts), '_via': via}
 
 
 def gen_edit(rng):
@@ -1950,7 +1966,7 @@ def histkey(case, got):
     ks = ['kind=' + case['_k'], 'result=' + ('error:' + got['e'] if isinstance(got, dict) else 'ok')]
     v = case.get('_via')
     if isinstance(v, dict):
-        ks.append('stream=%s,%s,%s' % (v['w'], 'fmt detected' if v.get('det') else 'fmt given', 'offset 0' if not v.get('pre') else 'behind a ' + v['pre'][0]))
+        ks.append('stream=%s,%s,%s' % (v['w'], 'fmt detected' if v.get('det') else 'fmt given', 'offset 0' if not v.get('pre') else 'two tables from the start' if v.get('at0') and case['_k'] == 'text' and v['pre'][0] == 'table' else 'behind a ' + v['pre'][0]))
     if case['_k'] == 'seqgff':
         if isinstance(got, list):
             ks.append('seqgff-kept=%d' % len(got[1]))
@@ -2229,7 +2245,7 @@ LEVEL_TEXT = ('Machine-checked Coq theorems about an executable Gallina model of
               'reader/writer options, and on the written table text (byte for byte) and the records read back for TSV/CSV files through '
               'the real pandas, including tables written by other programs, and for tables that lie inside a stream behind earlier content '
               '(text and binary streams, fmt given and detected).')
-LEVEL_NOTE = ('Proved (55 theorems, all closed under the global context): unquote(quote s) = s for every byte string and unquote of any mixed '
+LEVEL_NOTE = ('Proved (56 theorems, all closed under the global context): unquote(quote s) = s for every byte string and unquote of any mixed '
               'raw / upper- / lower-case escape encoding; quoted fields contain no separator; decimal coordinates round-trip (columns 4/5 are '
               'start+1 and stop); key=value items (also padded with blanks) and the whole attribute column round-trip with order and list '
               'values; one line <-> (type, seqid, source, score, phase, strand, location, attributes) for every combination of present / '
@@ -2267,8 +2283,11 @@ LEVEL_NOTE = ('Proved (55 theorems, all closed under the global context): unquot
               'n calls of f.readline()): C02_read_at_offset (a GFF text / a table read from the offset behind ANY earlier content is read as '
               'the text / table alone), C02_read_behind_titles (the same behind any number of title lines skipped with readline()), '
               'C02_two_tables and C02_two_tables_xsv (two tables written one after the other into one stream: from the second table\'s '
-              'offset that table is read; unbounded, no domain hypotheses). These four are statements about the stream model the harness '
-              'evaluates on the very content and position it hands sugar; their weight lies in that per-case comparison. '
+              'offset that table is read; unbounded, no domain hypotheses), C02_two_tables_joined (read from its START, the stream holding the '
+              'tables of two lists of normalised features is read as the table of the joined list: the second version line is a comment). The offset '
+              'theorems are statements about the stream model the harness evaluates on the very content and position it hands sugar '
+              '(text cases behind a table / a title line / from the start of a two-table stream, xsvr cases); their weight lies in that '
+              'per-case comparison. '
               'Refuted with a witness and excluded from the round-trip theorem\'s domain (rt_C02), but generated and checked by the oracle: '
               'features whose first 5\'->3\' location has attributes of its own (C02_firstloc_overrides_refuted; open finding F39, reported as '
               'KNOWN-FINDING only when it is the sole failure of a case and model and code agree); neighbouring features with one '
